@@ -105,6 +105,7 @@ func (s fpStats) log(prefix string) {
 // ---- filterstream ---------------------------------------------------------------------------------
 
 type fsWorld struct {
+	popBase int // w.tags[popBase+i] is the tag of the publication loaded by OnCacheEmpty for fpTags[i]
 	n    *Node
 	sf   string // server filter answered by OnSubscribe for the next subscribe command
 	desc string
@@ -129,8 +130,31 @@ func fsNewWorld() *fsWorld {
 			case "cache":
 				o.EnablePositioning, o.EnableRecovery, o.RecoveryMode = true, true, RecoveryModeCache
 			}
+			if strings.HasPrefix(e.Channel, "cpop-") {
+				o.EnablePositioning, o.EnableRecovery, o.RecoveryMode = true, true, RecoveryModeCache
+			}
 			cb(SubscribeReply{Options: o}, nil)
 		})
+	})
+	// cache recovery on an empty channel "cpop-<tag>-<n>": the application loads the latest value
+	// (tagged <tag>) and reports Populated, which makes subscribeCmd read the cache a second time
+	n.OnCacheEmpty(func(e CacheEmptyEvent) (CacheEmptyReply, error) {
+		if !strings.HasPrefix(e.Channel, "cpop-") {
+			return CacheEmptyReply{}, nil
+		}
+		tag := strings.Split(e.Channel, "-")[1]
+		if tag == "none" {
+			tag = "-"
+		}
+		for i, t := range fpTags {
+			if t == tag {
+				_, err := n.Publish(e.Channel, []byte(fmt.Sprintf(`{"i":%d}`, w.popBase+i+1)), WithTags(fpTagMap(tag)), WithHistory(16, time.Minute))
+				if err != nil {
+					w.fail("model-divergence:publish-error", "publish from OnCacheEmpty: %v", err)
+				}
+			}
+		}
+		return CacheEmptyReply{Populated: true}, nil
 	})
 	if err := n.Run(); err != nil {
 		panic(err)
@@ -173,6 +197,10 @@ func (w *fsWorld) subscribe(cn *fsConn, ch string, req *protocol.SubscribeReques
 
 func fsPath(ch string, recovered bool) string {
 	switch {
+	case recovered && strings.HasPrefix(ch, "cpop-"):
+		return "cache-recovery-after-cache-empty-populated"
+	case strings.HasPrefix(ch, "cpop-"):
+		return "live-positioned"
 	case recovered && ch == "cache":
 		return "cache-recovery"
 	case recovered:
@@ -271,10 +299,31 @@ func fsBody(maxLen int) func() {
 			}
 		}
 		vsched.WaitIdle()
+		// cache recovery on empty channels populated by the OnCacheEmpty handler, one fresh channel
+		// per (filter pair, tag of the loaded publication)
+		w.popBase = len(w.tags)
+		w.tags = append(w.tags, fpTags...)
+		nch := 0
+		for _, sf := range fpSels {
+			for _, cf := range fpSels {
+				for _, t := range fpTags {
+					name := t
+					if t == "-" {
+						name = "none"
+					}
+					nch++
+					cn := w.newConn(sf, cf, "cache-empty-populated-"+name)
+					w.subscribe(cn, fmt.Sprintf("cpop-%s-%d", name, nch), &protocol.SubscribeRequest{Recover: true})
+					conns = append(conns, cn)
+				}
+			}
+		}
+		vsched.WaitIdle()
 		st := fpStats{}
 		for _, cn := range conns {
 			w.check(cn, st)
 		}
+		w.tags = w.tags[:w.popBase]
 		vsched.Logf("%s", w.desc)
 		st.log("stream")
 		// vacuity guard: without filters every publication reaches the live subscriber on every channel
@@ -675,7 +724,7 @@ func init() {
 	vsched.Register(&vsched.Harness{
 		Name: "filterstream", Props: []string{"C16"}, Kind: "sched",
 		Doc: "E2 on a real Node (memory broker): one execution = one tag sequence over {a, b, none} of length <= 3 (quick) / <= 5 (thorough) published to channels pos (positioned+recoverable), cache (RecoveryModeCache), nph (history, subscription not positioned) and np0 (no history); " +
-			"for every (server filter, client filter) in {none, t eq a, t eq b}^2 a live subscriber on all channels plus recovery probes from every offset 0..top (stream recovery on pos, cache recovery on cache). Oracle: every publication in a subscribe reply or push is admitted by both filters (tag equality reference).",
+			"for every (server filter, client filter) in {none, t eq a, t eq b}^2 a live subscriber on all channels plus recovery probes from every offset 0..top (stream recovery on pos, cache recovery on cache), plus cache recovery on empty channels that the OnCacheEmpty handler populates (publication tagged a / b / none, Populated=true: the second cache read). Oracle: every publication in a subscribe reply or push is admitted by both filters (tag equality reference).",
 		Variants: func(tier string) []vsched.Variant {
 			if tier == "thorough" {
 				return []vsched.Variant{{Name: "len5", Bound: 0, Shards: 8, NoCache: true, BudgetS: 280}}
